@@ -558,6 +558,12 @@ func (g *Gen) readBundle() []string {
 // History generates the steps of one run.
 func (g *Gen) History() []Step {
 	nv := g.r.Range(g.b.MinVersions, g.b.MaxVersions)
+	if g.b.Discard > 0 && !g.b.SortedWrites && g.r.Chance(g.b.Discard, 100) {
+		// uncommitted writes discarded before the very first commit
+		g.writes()
+		g.emit(Step{Op: OpDiscard})
+		g.curOps, g.dirty = nil, false
+	}
 	for v := 0; v < nv; v++ {
 		if g.b.SaveCS > 0 && g.cur == g.latest && !g.dirty && g.r.Chance(g.b.SaveCS, 100) {
 			g.changeSet()
